@@ -26,8 +26,10 @@ def _c(name, flavor, variant, scenarios, extra=(), cpus=4, timeout=420):
       'before_fork; bp child: arena holds only the forking thread slot. Children fork again (depth <= 3) after '
       'building a new layout and new threads. A process that stops progressing is a violation only when its progress '
       'page did not move across 3 samples spanning >= 21 s AND its script thread was blocked in the kernel at each '
-      'sample (or: a resize stayed queued for the whole poll budget while no workqueue/resize hook point was hit); '
-      'otherwise inconclusive. non-trivial = >= 1 callback pending at fork, or a resize in flight / queued at '
+      'sample and no thread of that process spent > 25 % of the interval waiting for a CPU (or: the hash-table work '
+      'queue length stayed > 0 for the whole poll budget while no workqueue/resize hook point was hit); otherwise '
+      'inconclusive. resize_initiated left set with an empty work queue (launcher stores the flag after queueing; '
+      'not fork related) is counted as stale_resize_initiated_flag and treated as no resize pending. non-trivial = >= 1 callback pending at fork, or a resize in flight / queued at '
       'before_fork, or (bp) >= 1 other thread inside a read-side section at fork. distinct = (flavor, layout, helper '
       'state when before_fork was called, pending bucket, depth, forking thread registered | bp: readers bucket, '
       'in-section bucket, table state).',
@@ -38,7 +40,9 @@ def _c(name, flavor, variant, scenarios, extra=(), cpus=4, timeout=420):
        'bp handlers nest inside the call_rcu handlers (call_rcu_before_fork first, urcu_bp_after_fork_* first)',
        'bp readers parked inside a section leave it after about 0.5 s at the latest (a helper that began a grace period '
        'before PAUSE was requested must be able to finish)',
-       'the re-created hash-table worker may spin on the inherited futex value (known, not flagged)'])
+       'the re-created hash-table worker may spin on the inherited futex value (known, not flagged)',
+       'work-queue length is read through a private mirror of the leading fields of struct urcu_workqueue '
+       '(address = ctx of the WQ_PRE_SLEEP / WQ_PAUSE hook points); no accessor exists in vp_peek.h'])
 def c16(tier, seed):
     out = []
     k = 1 if tier == 'quick' else 30
